@@ -3,7 +3,7 @@ import MesaModel.Proofs.Viz
 # C20 — visualisation data shows each agent once, where it is, as portrayed
 
 Property theorems only (model: `Model/Viz.lean`, helper lemmas and the spec predicates
-`Reachable`, `markerOf`, `drawEntries`, `rowOf`, `UniformOptional`, `bindsByKeyword`: `Proofs/Viz.lean`).
+`Reachable`, `markerOf`, `drawEntries`, `rowOf`, `bindsByKeyword`: `Proofs/Viz.lean`).
 
 `Reachable sp`: a space of any of the twelve supported classes, freshly built, then changed by any
 sequence of successful `place` / `move` / `remove` calls.  Heaps and portrayals are arbitrary: the
@@ -12,11 +12,10 @@ portrayal may hand the *same* dict object to several agents (defect V3).
 its location (`pos`, else `cell.coordinate`), with colour / size / marker / zorder / alpha / edgecolors /
 linewidths as its portrayal returned them, defaults otherwise.
 
-Open finding V7: a portrayal that returns alpha / edgecolors / linewidths for some agents only makes
-`_scatter` raise IndexError.  The full statement "`draw_space` draws one marker per agent for every
-portrayal" is therefore false for the code as it is (`C20_V7_full_statement_refuted`); the shipped theorem
-`C20_draw_one_marker_per_agent_partial` has the hypothesis `UniformOptional`, and
-`C20_draw_fails_iff_optional_not_uniform` says that this is exactly the missing case.
+Finding V7 (fixed): a portrayal that returned alpha / edgecolors / linewidths for some agents only made
+`_scatter` raise IndexError.  Since the fix every agent has a slot in each optional array (`None` if its
+portrayal does not specify the key) and `_fill_unspecified` gives those agents matplotlib's default, so
+`C20_draw_one_marker_per_agent` holds for every portrayal; `C20_V7_some_agents_optional_drawn` is the witness.
 -/
 namespace Mesa.Viz
 
@@ -61,6 +60,26 @@ theorem C20_entry_is_portrayal_or_default (df : Defaults) (heap : Heap) (p : Por
       e.ignored = (Dict.keys (portrayed heap p a.id)).filter (fun k => !supportedKeys.contains k) :=
   ⟨_, by simp [entryOf, hl], collectOne_spec df l _⟩
 
+/-- The optional arrays `alpha` / `edgecolors` / `linewidths` (`alphas`, `edgecolorss`, `linewidthss` are
+    `optArray` of the respective field; fix V7): the array is empty exactly when no agent's portrayal specifies
+    the key, and otherwise it has exactly one slot per entry, in the order of the entries, holding the value
+    the portrayal returned or `None` — never a shorter array that the masks of `_scatter` would not fit. -/
+theorem C20_collect_optional_arrays (f : Entry → Option Val) (es : List Entry) :
+    (optArray f es = [] ↔ ∀ e ∈ es, f e = none) ∧
+    (optArray f es ≠ [] → optArray f es = es.map f ∧ (optArray f es).length = es.length) := by
+  have hall : (es.all fun e => (f e).isNone) = true ↔ ∀ e ∈ es, f e = none := by
+    rw [List.all_eq_true]
+    exact ⟨fun h e he => by simpa using h e he, fun h e he => by simp [h e he]⟩
+  unfold optArray
+  split
+  · rename_i h
+    exact ⟨⟨fun _ => hall.mp h, fun _ => rfl⟩, fun hne => absurd rfl hne⟩
+  · rename_i h
+    refine ⟨⟨fun hm => ?_, fun hn => absurd (hall.mpr hn) h⟩, fun _ => ⟨rfl, List.length_map _⟩⟩
+    rw [List.map_eq_nil_iff] at hm
+    subst hm
+    simp at h
+
 /-- The location rule: `agent.pos` if it is set, `agent.cell.coordinate` otherwise. -/
 theorem C20_location_rule (a : Agent) :
     (∀ p, a.pos = some p → a.location = some p) ∧ (a.pos = none → a.location = a.cell) := by
@@ -88,29 +107,61 @@ theorem C20_inplace_agrees_on_unshared_dicts (df : Defaults) (p : Portrayal) (he
 
 /-! ## _scatter -/
 
-/-- The scatter calls partition the entries: whenever `_scatter` succeeds, the members of its calls are a
-    permutation of the entries (each agent is drawn by exactly one call), every call is non-empty and draws
+/-- The scatter calls partition the entries, whatever the portrayals returned: the members of the calls are
+    a permutation of the entries (each agent is drawn by exactly one call), every call is non-empty and draws
     only entries with its marker and its z-order, and no (marker, z-order) pair is scattered twice. -/
-theorem C20_scatter_partition {es : List Entry} {gs : List Group} (h : scatter es = .ok gs) :
-    (gs.flatMap (·.members)).Perm es ∧
-    (∀ g ∈ gs, g.members ≠ [] ∧ ∀ e ∈ g.members, e.marker = g.marker ∧ e.zorder = g.zorder) ∧
-    (gs.map fun g => (g.marker, g.zorder)).Nodup := by
-  classical
-  by_cases hne : es = []
-  · subst hne
-    rw [scatter_nil] at h
-    injection h with h; subst h
-    simp
-  · by_cases hu : UniformOptional es
-    · rw [scatter_uniform hne hu] at h
-      injection h with h; subst h
-      refine ⟨groupsOf_perm es, fun g hg => ?_, groupsOf_keys_nodup es⟩
-      obtain ⟨h1, h2⟩ := groupsOf_mem hg
-      refine ⟨h1, fun e he => ?_⟩
-      rw [h2, List.mem_filter] at he
-      simpa using he.2
-    · rw [scatter_nonuniform hne hu] at h
-      cases h
+theorem C20_scatter_partition (es : List Entry) :
+    ((scatter es).flatMap (·.members)).Perm es ∧
+    (∀ g ∈ scatter es, g.members ≠ [] ∧ ∀ e ∈ g.members, e.marker = g.marker ∧ e.zorder = g.zorder) ∧
+    ((scatter es).map fun g => (g.marker, g.zorder)).Nodup := by
+  rw [scatter_eq]
+  refine ⟨groupsOf_perm es, fun g hg => ?_, groupsOf_keys_nodup es⟩
+  obtain ⟨h1, h2⟩ := groupsOf_mem hg
+  refine ⟨h1, fun e he => ?_⟩
+  rw [h2, mkGroup_members, List.mem_filter] at he
+  simpa using he.2
+
+/-- The optional keywords of a scatter call (fix V7).  For each of alpha / edgecolors / linewidths: the
+    keyword is left out exactly when no agent of the call specifies it; otherwise the array has exactly one
+    slot per agent of the call — so the masks always fit — holding that agent's value, or the default
+    (`none`) if its portrayal does not specify the key.  Hence every marker of the call is drawn with the
+    values of the agent it stands for (`drawn`), for every mix of specified and unspecified keys. -/
+theorem C20_scatter_optional_args (es : List Entry) :
+    ∀ g ∈ scatter es,
+      (∀ (f : Entry → Option Val) (arg : Option (List (Option Val))),
+        (f = (·.alpha) ∧ arg = g.alpha) ∨ (f = (·.edgecolors) ∧ arg = g.edgecolors) ∨
+          (f = (·.linewidths) ∧ arg = g.linewidths) →
+        (arg = none ↔ ∀ e ∈ g.members, f e = none) ∧
+        ∀ vs, arg = some vs → vs.length = g.members.length ∧ vs = g.members.map f) ∧
+      g.drawn = g.members := by
+  intro g hg
+  rw [scatter_eq] at hg
+  obtain ⟨_, h2⟩ := groupsOf_mem hg
+  have hsub : ∀ e ∈ (mkGroup es g.marker g.zorder).members, e ∈ es := fun e he => (List.mem_filter.mp he).1
+  have key : ∀ f : Entry → Option Val,
+      (fillKey f g.members = none ↔ ∀ e ∈ g.members, f e = none) ∧
+      ∀ vs, fillKey f g.members = some vs → vs.length = g.members.length ∧ vs = g.members.map f := by
+    intro f
+    unfold fillKey
+    split
+    · rename_i ha
+      rw [List.all_eq_true] at ha
+      exact ⟨⟨fun _ e he => by simpa using ha e he, fun _ => rfl⟩, fun vs h => by cases h⟩
+    · rename_i ha
+      refine ⟨⟨fun h => (by cases h), fun h => absurd ?_ ha⟩, fun vs h => ?_⟩
+      · rw [List.all_eq_true]; intro e he; simp [h e he]
+      · injection h with h; subst h; exact ⟨List.length_map _, rfl⟩
+  have ha : g.alpha = fillKey (·.alpha) g.members := by
+    rw [h2]; exact passKey_eq_fillKey _ hsub
+  have he : g.edgecolors = fillKey (·.edgecolors) g.members := by
+    rw [h2]; exact passKey_eq_fillKey _ hsub
+  have hl : g.linewidths = fillKey (·.linewidths) g.members := by
+    rw [h2]; exact passKey_eq_fillKey _ hsub
+  refine ⟨fun f arg h => ?_, by rw [h2]; exact mkGroup_drawn es _ _⟩
+  rcases h with ⟨rfl, rfl⟩ | ⟨rfl, rfl⟩ | ⟨rfl, rfl⟩
+  · rw [ha]; exact key _
+  · rw [he]; exact key _
+  · rw [hl]; exact key _
 
 /-! ## draw_space -/
 
@@ -130,61 +181,40 @@ theorem C20_marker_values (fam : Family) (heap : Heap) (p : Portrayal) (a : Agen
   exact ⟨{ collectOne drawDefaults l (portrayed heap p a.id) with loc := transform fam l }, by simp [markerOf, hl],
     rfl, hs.2.1, hs.2.2.1, hs.2.2.2.1, hs.2.2.2.2.1, hs.2.2.2.2.2.1, hs.2.2.2.2.2.2.1, hs.2.2.2.2.2.2.2.1⟩
 
-/-- Whenever `draw_space` succeeds, what it scattered is — as a multiset — exactly one marker per agent
-    currently in the space, the one the property demands (`markerOf`), and nothing else.  This holds for
-    every supported space class, every occupancy and every portrayal, shared dicts included. -/
+/-- `draw_space` succeeds for every reachable space of the twelve classes, every heap and every portrayal
+    — shared dicts and optional keys returned for some agents only included — and what ends up on the Axes
+    (`drawn`) is, as a multiset, exactly one marker per agent currently in the space, the one the property
+    demands (`markerOf`), and nothing else; the calls are non-empty, homogeneous in marker and z-order, and
+    no (marker, z-order) pair is scattered twice. -/
+theorem C20_draw_one_marker_per_agent {sp : Space} (h : Reachable sp) (heap : Heap) (p : Portrayal) :
+    ∃ gs, drawSpace sp heap p = .ok gs ∧
+      (gs.flatMap (·.drawn)).Perm (sp.placed.filterMap (markerOf sp.fam heap p)) ∧
+      (∀ a ∈ sp.placed, (markerOf sp.fam heap p a).isSome) ∧
+      (gs.flatMap (·.drawn)).length = sp.placed.length ∧
+      (∀ g ∈ gs, g.drawn = g.members ∧ g.members ≠ [] ∧ ∀ e ∈ g.members, e.marker = g.marker ∧ e.zorder = g.zorder) ∧
+      (gs.map fun g => (g.marker, g.zorder)).Nodup := by
+  have w := reachable_wf h
+  have hs := C20_scatter_partition (drawEntries sp heap p)
+  have hd : ∀ g ∈ scatter (drawEntries sp heap p), g.drawn = g.members :=
+    fun g hg => (C20_scatter_optional_args _ g hg).2
+  have hfm : (scatter (drawEntries sp heap p)).flatMap (·.drawn) = (scatter (drawEntries sp heap p)).flatMap (·.members) :=
+    flatMap_congr' hd
+  have hp : ((scatter (drawEntries sp heap p)).flatMap (·.drawn)).Perm (sp.placed.filterMap (markerOf sp.fam heap p)) := by
+    rw [hfm]; exact hs.1.trans (drawEntries_perm w heap p)
+  exact ⟨_, drawSpace_eq w heap p, hp, markerOf_isSome w heap p,
+    hp.length_eq.trans (filterMap_length_full.mpr (markerOf_isSome w heap p)),
+    fun g hg => ⟨hd g hg, hs.2.1 g hg⟩, hs.2.2⟩
+
+/-- `draw_space` never answers anything else: the result is the scatter calls of the entries. -/
 theorem C20_draw_ok_one_marker_per_agent {sp : Space} (h : Reachable sp) (heap : Heap) (p : Portrayal)
     {gs : List Group} (hd : drawSpace sp heap p = .ok gs) :
-    (gs.flatMap (·.members)).Perm (sp.placed.filterMap (markerOf sp.fam heap p)) ∧
-    (∀ a ∈ sp.placed, (markerOf sp.fam heap p a).isSome) ∧
-    (gs.flatMap (·.members)).length = sp.placed.length := by
-  have w := reachable_wf h
-  rw [drawSpace_eq w] at hd
-  have hp := (C20_scatter_partition hd).1.trans (drawEntries_perm w heap p)
-  exact ⟨hp, markerOf_isSome w heap p,
-    hp.length_eq.trans (filterMap_length_full.mpr (markerOf_isSome w heap p))⟩
-
-/-- PARTIAL (open finding V7).  If every optional key (alpha, edgecolors, linewidths) is returned for all
-    agents in the space or for none, `draw_space` succeeds and draws exactly one marker per agent, as
-    demanded.  Missing for the full statement: portrayals returning an optional key for some agents only. -/
-theorem C20_draw_one_marker_per_agent_partial {sp : Space} (h : Reachable sp) (heap : Heap) (p : Portrayal)
-    (hu : UniformOptional (drawEntries sp heap p)) :
-    ∃ gs, drawSpace sp heap p = .ok gs ∧
-      (gs.flatMap (·.members)).Perm (sp.placed.filterMap (markerOf sp.fam heap p)) ∧
-      (∀ g ∈ gs, g.members ≠ [] ∧ ∀ e ∈ g.members, e.marker = g.marker ∧ e.zorder = g.zorder) ∧
-      (gs.map fun g => (g.marker, g.zorder)).Nodup := by
-  classical
-  have w := reachable_wf h
-  by_cases hne : drawEntries sp heap p = []
-  · have hd : drawSpace sp heap p = .ok [] := by rw [drawSpace_eq w, hne, scatter_nil]
-    have := C20_draw_ok_one_marker_per_agent h heap p hd
-    exact ⟨[], hd, this.1, by simp, by simp⟩
-  · have hd : drawSpace sp heap p = .ok (groupsOf (drawEntries sp heap p)) := by
-      rw [drawSpace_eq w, scatter_uniform hne hu]
-    have hs := C20_scatter_partition (by rw [← drawSpace_eq w]; exact hd)
-    exact ⟨_, hd, (C20_draw_ok_one_marker_per_agent h heap p hd).1, hs.2.1, hs.2.2⟩
-
-/-- `draw_space` never fails for another reason: it raises (IndexError) exactly when there are agents and
-    some optional key is returned for some of them only. -/
-theorem C20_draw_fails_iff_optional_not_uniform {sp : Space} (h : Reachable sp) (heap : Heap) (p : Portrayal) :
-    (drawSpace sp heap p = .error .index ↔ sp.placed ≠ [] ∧ ¬UniformOptional (drawEntries sp heap p)) ∧
-    ((∃ gs, drawSpace sp heap p = .ok gs) ∨ drawSpace sp heap p = .error .index) := by
-  classical
-  have w := reachable_wf h
-  have hlen := drawEntries_length w heap p
-  rw [drawSpace_eq w]
-  by_cases hne : drawEntries sp heap p = []
-  · have hp : sp.placed = [] := by
-      rw [hne] at hlen; exact List.length_eq_zero_iff.mp hlen.symm
-    rw [hne, scatter_nil]
-    exact ⟨⟨fun e => (by cases e), fun e => absurd hp e.1⟩, Or.inl ⟨_, rfl⟩⟩
-  · have hp : sp.placed ≠ [] := by
-      intro e; rw [e] at hlen; exact hne (List.length_eq_zero_iff.mp hlen)
-    by_cases hu : UniformOptional (drawEntries sp heap p)
-    · rw [scatter_uniform hne hu]
-      exact ⟨⟨fun e => (by cases e), fun e => absurd hu e.2⟩, Or.inl ⟨_, rfl⟩⟩
-    · rw [scatter_nonuniform hne hu]
-      exact ⟨⟨fun _ => ⟨hp, hu⟩, fun _ => rfl⟩, Or.inr rfl⟩
+    (gs.flatMap (·.drawn)).Perm (sp.placed.filterMap (markerOf sp.fam heap p)) ∧
+    (gs.flatMap (·.drawn)).length = sp.placed.length := by
+  obtain ⟨gs', h1, h2, _, h4, _⟩ := C20_draw_one_marker_per_agent h heap p
+  rw [hd] at h1
+  injection h1 with h1
+  subst h1
+  exact ⟨h2, h4⟩
 
 /-- the state of the V7 witness: two agents on a MultiGrid -/
 def v7Space : Space :=
@@ -198,15 +228,20 @@ theorem v7Space_reachable : Reachable v7Space := by
     { fam := .multi, w := 2, h := 2, cells := gridCells 2 2, placed := [mkAgent .multi 1 ⟨0, 0⟩] }) (by decide)
   exact Reachable.step (op := .place 2 ⟨1, 1⟩) h1 (by decide)
 
-/-- Witness V7: the full statement "for every reachable space, heap and portrayal `draw_space` succeeds"
-    is false for the code as it is — agent 1 returns `{"alpha": "50"}`, agent 2 returns `{}`. -/
-theorem C20_V7_full_statement_refuted :
-    ¬ ∀ (sp : Space), Reachable sp → ∀ (heap : Heap) (p : Portrayal), ∃ gs, drawSpace sp heap p = .ok gs := by
-  intro hall
-  obtain ⟨gs, hg⟩ := hall v7Space v7Space_reachable [[("alpha", "50")]] (fun a => if a = 1 then some 0 else none)
-  have : drawSpace v7Space [[("alpha", "50")]] (fun a => if a = 1 then some 0 else none) = .error .index := by decide
-  rw [this] at hg
-  cases hg
+/-- Witness V7 (raised IndexError before the fix): agent 1 returns `{"alpha": "50"}`, agent 2 returns `{}`.
+    `collect_agent_data` records `[50, None]`; one scatter call draws both agents, is handed an alpha array
+    with a slot for each — agent 2's is the default — and no edgecolors / linewidths keyword. -/
+theorem C20_V7_some_agents_optional_drawn :
+    let heap : Heap := [[("alpha", "50")]]
+    let p : Portrayal := fun a => if a = 1 then some 0 else none
+    (collectAgentData libDefaults heap p (spaceAgents v7Space)).map alphas = some [some "50", none] ∧
+    (drawSpace v7Space heap p).toOption.map (·.map fun g => (g.marker, g.zorder, g.alpha)) =
+      some [("o", "1", some [some "50", none])] ∧
+    (drawSpace v7Space heap p).toOption.map (·.map fun g => (g.edgecolors, g.linewidths)) = some [(none, none)] ∧
+    (drawSpace v7Space heap p).toOption.map (·.map fun g => g.drawn.map fun e => (e.loc, e.alpha)) =
+      some [[(⟨0, 0⟩, some "50"), (⟨1, 1⟩, none)]] := by
+  intro heap p
+  refine ⟨by decide, by decide, by decide, by decide⟩
 
 /-- V5: a space without agents is drawn without markers (and without an exception), by both back ends. -/
 theorem C20_empty_space_draws_nothing {sp : Space} (h : Reachable sp) (heap : Heap) (p : Portrayal)
@@ -356,11 +391,8 @@ example : Reachable exSpace := by
 -- `space.agents` walks the cells: agent 2 (cell (0,1)) comes before agents 1 and 3 (cell (1,2))
 example : (spaceAgents exSpace).map (·.id) = [2, 1, 3] := by decide
 
--- the hypothesis of the partial theorem is satisfiable with several agents, markers and z-orders,
--- and the drawing consists of two non-empty scatter calls
-example : UniformOptional (drawEntries exSpace exHeap exPortrayal) := by
-  refine ⟨Or.inl ?_, Or.inl ?_, Or.inl ?_⟩ <;> decide
-
+-- several agents, markers and z-orders, one portrayal dict shared: the drawing consists of two non-empty
+-- scatter calls
 example : (drawSpace exSpace exHeap exPortrayal).toOption.map (·.map fun g => (g.marker, g.zorder, g.members.length)) =
     some [("o", "2", 1), ("s", "1", 2)] := by decide
 
